@@ -147,6 +147,9 @@ Check C06_decide_prop_ok :
 Check C06_history_prop_ok :
   forall p h,
   prop_history_ok p (decide_history (new_session p) h) = true.
+Check C06_trace_prop_ok :
+  forall p idem cl0 plan outs tr r,
+  fiber p idem cl0 plan outs = (tr, r) -> prop_trace_ok p idem (List.length plan) tr = true.
 Print Assumptions C06_safe_set.
 Print Assumptions C06_named_unsafe_set.
 Print Assumptions C06_safe_resend.
@@ -174,3 +177,4 @@ Print Assumptions C06_downgrade_decision.
 Print Assumptions C06_ignore_only_idempotent.
 Print Assumptions C06_decide_prop_ok.
 Print Assumptions C06_history_prop_ok.
+Print Assumptions C06_trace_prop_ok.
